@@ -2,7 +2,7 @@
 (* C15: vectors of frames injected over the simulated air into one real node  *)
 (* (routing-only / network / mesh node / mesh master at levels 0..4) and what *)
 (* update() did with them; plus the implementation's is_address_valid table.  *)
-EXTENDS NetAddr, NetFrame, Json, IOUtils
+EXTENDS NetAddr, NetFrame, Json, IOUtils, FiniteSets
 V == JsonDeserialize(IOEnv.TRACE_FILE)
 VARIABLE tid
 OK == <<"ok", "">>
@@ -10,6 +10,15 @@ Clause(v) ==
   IF v.k = "valid" THEN     \* a slice of the validity table: v.base .. v.base + Len(v.bits) - 1
      (LET bad == {i \in 1..Len(v.bits) : (v.bits[i] = 1) # IsValid(v.base + i - 1)} IN
       IF bad = {} THEN OK ELSE <<"C15.ValidIff", "is_address_valid(" \o ToString(v.base + (CHOOSE i \in bad : \A j \in bad : i <= j) - 1) \o ") is wrong">>)
+  ELSE IF v.k = "seq" THEN      \* up to three frames waiting in the RX FIFO when update() is called (and again until it is empty)
+     (LET Bad(r) == Len(r) < 8 \/ ~IsValid(UnpackHdr(r).from) \/ ~IsValid(UnpackHdr(r).to)
+          nGood == Cardinality({i \in 1..Len(v.raws) : ~Bad(v.raws[i])}) IN
+      IF v.exc # "none" THEN <<"C15.NoRaise", "update() raised " \o v.exc \o " with several frames waiting">>
+      ELSE IF v.dt > v.bound THEN <<"C15.Bounded", ToString(v.dt) \o " us">>
+      ELSE IF v.queued > nGood THEN <<"C15.DropInvalid", "more frames queued than valid frames received">>
+      ELSE IF nGood = 0 /\ v.ntx # 0 THEN <<"C15.DropInvalid", "only short / invalid frames received but something was transmitted">>
+      ELSE IF \E i \in 1..Len(v.sent) : Len(v.sent[i]) > 32 \/ Bad(v.sent[i]) THEN <<"C15.DropInvalid", "a frame with invalid addresses was transmitted">>
+      ELSE OK)
   ELSE
   LET short == Len(v.raw) < 8
       h == IF short THEN Hdr(0, 0, 0, 0, 0) ELSE UnpackHdr(v.raw)
